@@ -160,7 +160,7 @@ func (in *Interp) pickAfter(cur *Thread) *Thread {
 	if len(rs) == 0 {
 		return nil
 	}
-	if in.cfg.SchedExplore {
+	if in.schedExplore() {
 		return rs[in.choose(len(rs))]
 	}
 	if rs[0].id == 0 {
@@ -190,7 +190,7 @@ func (in *Interp) yield() {
 	if len(rs) == 0 {
 		return
 	}
-	if in.cfg.SchedExplore {
+	if in.schedExplore() {
 		c := in.choose(len(rs) + 1)
 		if c == 0 {
 			return
@@ -203,7 +203,7 @@ func (in *Interp) yield() {
 
 // preempt is called before synchronisation operations.
 func (in *Interp) preempt() {
-	if !in.cfg.PreemptSync {
+	if !in.preemptSync() {
 		return
 	}
 	// context bound: voluntary switches at synchronisation operations are limited;
@@ -216,7 +216,7 @@ func (in *Interp) preempt() {
 		return
 	}
 	c := 0
-	if in.cfg.SchedExplore {
+	if in.schedExplore() {
 		c = in.choose(len(rs) + 1)
 	}
 	if c == 0 {
@@ -234,7 +234,7 @@ func (in *Interp) drain() {
 			return
 		}
 		var next *Thread
-		if in.cfg.SchedExplore {
+		if in.schedExplore() {
 			next = rs[in.choose(len(rs))]
 		} else {
 			next = rs[0]
@@ -486,3 +486,7 @@ func (in *Interp) checkGuard(p *Value) {
 	}
 	in.recordViolation("lockset: guarded field accessed without its mutex", "assert", "")
 }
+
+// scheduling options, switchable per path by the harness (verif_sched_explore)
+func (in *Interp) schedExplore() bool { return in.cfg.SchedExplore && !in.schedOff }
+func (in *Interp) preemptSync() bool  { return in.cfg.PreemptSync && !in.schedOff }
